@@ -1,7 +1,10 @@
 #!/usr/bin/env python3
 """Apply a seeded mutation to /repo, run the given checks, revert exactly the files the patch touched.
 usage: seedtest.py <patch> <ID> [<ID> ...] [--tier quick]"""
-import subprocess, sys, re, os
+import subprocess, sys, re, os, fcntl
+_lock = open("/tmp/sgv-repo.lock", "w")
+fcntl.flock(_lock, fcntl.LOCK_EX)          # held while the change is applied; checks are told not to re-lock
+os.environ["SGV_LOCK_HELD"] = "1"
 patch = os.path.abspath(sys.argv[1])
 ids = [a for a in sys.argv[2:] if not a.startswith("--")]
 files = re.findall(r"^\+\+\+ b/(\S+)", open(patch).read(), re.M)
